@@ -22,7 +22,8 @@ theorem matchLoop_spec (f : Text → Bool) (mk : Nat → Int) (count : Int) (i :
       · rcases ih _ _ _ h with h' | ⟨j, l', hj, hfl, hv⟩
         · right; exact ⟨0, l, by simp, hf, by cases h'; simp⟩
         · right; exact ⟨j + 1, l', by simpa using hj, hfl, by rw [hv]; congr 1; omega⟩
-    · simp only [hf] at h
+    · have hf' : f l = false := by simpa using hf
+      simp only [hf', Bool.false_eq_true, if_false] at h
       split at h
       · left; simpa using h
       · rcases ih _ _ _ h with h' | ⟨j, l', hj, hfl, hv⟩
@@ -31,7 +32,8 @@ theorem matchLoop_spec (f : Text → Bool) (mk : Nat → Int) (count : Int) (i :
 
 /-- **`find_next_matching_line` / `find_previous_matching_line`**: a reported relative line index
     points below / above the current row at a line that really satisfies the predicate -/
-theorem matchingLine_sound (f : Text → Bool) (d : Doc) (count : Int) (li : Int) :
+theorem matchingLine_sound (f : Text → Bool) (d : Doc) (hc : d.cur ≤ d.text.length) (count : Int)
+    (li : Int) :
     (findNextMatchingLine f d count = some li →
       1 ≤ li ∧ ∃ l, (lines d.text)[row d + li.toNat]? = some l ∧ f l = true) ∧
     (findPreviousMatchingLine f d count = some li →
@@ -52,16 +54,13 @@ theorem matchingLine_sound (f : Text → Bool) (d : Doc) (count : Int) (li : Int
         rcases Nat.lt_or_ge j ((lines d.text).take (row d)).reverse.length with h | h
         · simpa using h
         · rw [List.getElem?_eq_none h] at hj; cases hj
-      have hlen : ((lines d.text).take (row d)).length ≤ row d := by simp; omega
+      have hrow := (views_consistent d hc).1
+      simp only [lineCount] at hrow
+      have hlen : ((lines d.text).take (row d)).length = row d := by simp; omega
       rw [List.getElem?_reverse hjl, List.getElem?_take] at hj
       split at hj
       · refine ⟨by omega, by omega, l, ?_, hfl⟩
         have e : ((row d : Int) + (-1 - ((0 + j : Nat) : Int))).toNat = ((lines d.text).take (row d)).length - 1 - j := by
-          have : ((lines d.text).take (row d)).length = row d := by
-            simp only [List.length_take] at hjl ⊢
-            rename_i hlt
-            simp only [List.length_take] at hlt
-            omega
           omega
         rw [e]; exact hj
       · cases hj
